@@ -132,6 +132,8 @@ enum Op {
     Drop(usize),
     DropOnThread(usize),
     KeyRoundTrip(usize, usize),
+    /// `target.clone_from(&source)` between two values of the same type: the target's old content is released
+    CloneFrom(usize, usize),
 }
 
 #[derive(Debug)]
@@ -174,7 +176,13 @@ fn decode(src: &mut Source, threads: bool) -> Case {
                     Op::Drop(src.below(8))
                 }
             }
-            _ => Op::KeyRoundTrip(src.below(8), src.below(8)),
+            _ => {
+                if src.chance(110) {
+                    Op::CloneFrom(src.below(8), src.below(8))
+                } else {
+                    Op::KeyRoundTrip(src.below(8), src.below(8))
+                }
+            }
         })
         .collect();
     Case { ops, threads }
@@ -367,6 +375,41 @@ fn run_ops(case: &Case, world: &World) -> Result<Stats, Fail> {
                 }
                 consumed_by.push((lin, 1));
             }
+            Op::CloneFrom(i, j) if pool.len() >= 2 => {
+                let (ti, si) = (*i % pool.len(), *j % pool.len());
+                if ti != si {
+                    // take the target out, overwrite it from the source, put it back under the source's identity
+                    let (mut target, tlin) = pool.swap_remove(ti);
+                    let si = if si == pool.len() { ti } else { si }; // swap_remove moved the last element into ti
+                    let (source, slin) = (&pool[si].0, pool[si].1);
+                    let merged = match (&mut target, source) {
+                        (Val::S { cow: tc, model: tm, origin: to }, Val::S { cow: sc, model: sm, origin: so }) => {
+                            tc.clone_from(sc);
+                            *tm = sm.clone();
+                            *to = *so;
+                            true
+                        }
+                        (Val::L { cow: tc, model: tm, origin: to }, Val::L { cow: sc, model: sm, origin: so }) => {
+                            tc.clone_from(sc);
+                            *tm = sm.clone();
+                            *to = *so;
+                            true
+                        }
+                        _ => false,
+                    };
+                    if merged {
+                        stats.shapes |= 1 << 5;
+                        read(&target)?;
+                        consumed_by.push((tlin, 4));
+                        if !cloned_lineages.contains(&slin) {
+                            cloned_lineages.push(slin);
+                        }
+                        pool.push((target, slin));
+                    } else {
+                        pool.push((target, tlin));
+                    }
+                }
+            }
             Op::Drop(i) if !pool.is_empty() => {
                 let idx = *i % pool.len();
                 let (v, lin) = pool.swap_remove(idx);
@@ -466,6 +509,9 @@ fn run_case(case: &Case, ctx: &mut Ctx, track: bool) -> Result<(), Fail> {
     }
     if stats.shapes & 0b0010 != 0 {
         ctx.class("owned-spare-capacity");
+    }
+    if stats.shapes & 0b100000 != 0 {
+        ctx.class("clone_from-over-an-existing-value");
     }
     if stats.shapes & 0b10000 != 0 {
         ctx.nontrivial("shared-value-whose-last-reference-is-the-cows");
